@@ -1,4 +1,6 @@
 """C39 — hy.eval returns the last value and restores the caller's `hy` binding on every exit."""
+CANON = True
+
 import ast
 
 from .. import pyq
